@@ -23,7 +23,15 @@ go build -o "$V/.bin/vinstr" ./cmd/vinstr
 OV="$BIN/overlay"
 if "$V/.bin/vinstr" -repo "$REPO" -shim "$V/shim" -out "$OV" && go build $MODFLAG -overlay "$OV/overlay.json" -tags verifx -o "$BIN/vcheck" ./cmd/vcheck \
    && (cd "$REPO" && go build -overlay "$OV/overlay.json" -o "$BIN/csvq-verif" .); then
-  echo "$BIN/vcheck"
+  if [ "$ID" = "C13" ] || [ "$ID" = "all" ]; then
+    # the race-enabled harness (C13); same sources, same overlay
+    go build $MODFLAG -race -overlay "$OV/overlay.json" -tags verifx -o "$BIN/vcheck-race" ./cmd/vcheck
+  fi
+  if [ "$ID" = "C13" ]; then
+    echo "$BIN/vcheck-race"
+  else
+    echo "$BIN/vcheck"
+  fi
   exit 0
 fi
 echo "instrumented build failed; building the plain harness (checks that need the overlay are unavailable)"
